@@ -20,6 +20,9 @@
 (*            | [kind |-> "trunc", at |-> p] (stream ends after p cells)    *)
 (*            | [kind |-> "len", row |-> i, col |-> j] (length of that      *)
 (*              field replaced by one far beyond what the stream holds)     *)
+(*            | [kind |-> "width", row |-> i, col |-> j, how |-> "short" |  *)
+(*              "long"] (correctly framed value whose size is not the size  *)
+(*              of the column's fixed-width type: it does not decode)       *)
 (*   cuts     set of cell positions after which a new chunk starts          *)
 (***************************************************************************)
 EXTENDS Integers, Sequences, FiniteSets, TLC
@@ -41,18 +44,24 @@ Concat(ss) == IF ss = <<>> THEN <<>> ELSE Head(ss) \o Concat(Tail(ss))
 \* the cells of a field whose length word was replaced by a huge value
 HugeField(f, r, j) == <<Cell("len1", HugeLen), Cell("len2", 0)>> \o SubSeq(FieldCells(f, r, j), 3, Len(FieldCells(f, r, j)))
 
-RowCellsC(row, r, cnt, badcol) ==
+\* the cells of a value that does not decode under the column's type (framing intact)
+WrongField(f, r, j) == <<Cell("len1", f.n), Cell("len2", 0)>> \o [i \in 1..f.n |-> Cell("bad", <<r, j, i>>)]
+
+RowCellsC(row, r, cnt, badcol, wrongcol) ==
     <<Cell("cnt1", cnt), Cell("cnt2", 0)>>
-    \o Concat([j \in DOMAIN row |-> IF j = badcol THEN HugeField(row[j], r, j) ELSE FieldCells(row[j], r, j)])
-RowCells(row, r, cnt) == RowCellsC(row, r, cnt, 0)
+    \o Concat([j \in DOMAIN row |-> IF j = badcol THEN HugeField(row[j], r, j)
+                                     ELSE IF j = wrongcol THEN WrongField(row[j], r, j)
+                                     ELSE FieldCells(row[j], r, j)])
+RowCells(row, r, cnt) == RowCellsC(row, r, cnt, 0, 0)
 
 BadCol(sc, r) == IF sc.corrupt.kind = "len" /\ sc.corrupt.row = r THEN sc.corrupt.col ELSE 0
+WrongCol(sc, r) == IF sc.corrupt.kind = "width" /\ sc.corrupt.row = r THEN sc.corrupt.col ELSE 0
 
 CountOf(sc, r) == IF sc.corrupt.kind = "cnt" /\ sc.corrupt.row = r THEN sc.corrupt.to ELSE Len(sc.table[r])
 
 FullStream(sc) ==
     (IF sc.hdr THEN <<Cell("sig1", 0), Cell("sig2", 0), Cell("flags", 0), Cell("ext", 0)>> ELSE <<>>)
-    \o Concat([r \in DOMAIN sc.table |-> RowCellsC(sc.table[r], r, CountOf(sc, r), BadCol(sc, r))])
+    \o Concat([r \in DOMAIN sc.table |-> RowCellsC(sc.table[r], r, CountOf(sc, r), BadCol(sc, r), WrongCol(sc, r))])
     \o (IF sc.trailer THEN <<Cell("cnt1", -1), Cell("cnt2", 0)>> ELSE <<>>)
 
 Stream(sc) == IF sc.corrupt.kind = "trunc" THEN SubSeq(FullStream(sc), 1, sc.corrupt.at) ELSE FullStream(sc)
@@ -83,7 +92,7 @@ BadRow(sc) ==
 \* number of complete good rows delivered
 GoodRows(sc) ==
     LET n == Len(sc.table) IN
-    IF sc.corrupt.kind \in {"cnt", "len"}
+    IF sc.corrupt.kind \in {"cnt", "len", "width"}
     THEN sc.corrupt.row - 1
     ELSE IF sc.corrupt.kind = "trunc"
     THEN Cardinality({r \in 1..n : UpTo(sc, r) <= sc.corrupt.at})
@@ -94,6 +103,7 @@ ExpectedEnd(sc) ==
     IF sc.corrupt.kind = "cnt"
     THEN IF sc.corrupt.to = -1 THEN "eof" ELSE "err"
     ELSE IF sc.corrupt.kind = "len" THEN "err"      \* the field is truncated: the stream ends long before
+    ELSE IF sc.corrupt.kind = "width" THEN "err"    \* the value does not decode
     ELSE IF sc.corrupt.kind = "trunc"
     THEN IF sc.corrupt.at = 0 THEN "eof"
          ELSE IF sc.corrupt.at < HdrLen(sc) THEN "err"                       \* inside the header
@@ -180,8 +190,10 @@ Lenf ==
 Val ==
     /\ status = "run" /\ pc = "val" /\ Have
     /\ buf' = SubSeq(buf, k + 1, Len(buf))
-    /\ Finish(Append(cur, [c |-> "v", n |-> k]))
-    /\ UNCHANGED <<sc, chunks, k, status>>
+    /\ IF \E i \in 1..k : buf[i].u = "bad"
+       THEN status' = "err" /\ UNCHANGED <<pc, cur, out>>     \* the value does not decode under the column's type
+       ELSE Finish(Append(cur, [c |-> "v", n |-> k])) /\ UNCHANGED status
+    /\ UNCHANGED <<sc, chunks, k>>
 
 RNext == Pull \/ StreamEnds \/ Hdr \/ Hdr2 \/ Cnt \/ Lenf \/ Val
 
